@@ -421,6 +421,14 @@ def suite_gc_lifecycle(tier, seed, backends=("sql", "kv")):
             await asyncio.wait_for(idle.wait(), 10)
             T = env.NOW
             accepted = []
+            reader = None
+            if backend == "sql":
+                # a client is half-way through a stored answer while the passes run: the collector works on another pooled connection
+                for i in range(3):
+                    await st.add_event(env.mk_event(2, 7, env.NOW - 500 - i, [["t", "keep"]], "reader%d" % i))
+                    accepted.append(env.mk_event(2, 7, env.NOW - 500 - i, [["t", "keep"]], "reader%d" % i))
+                reader = st.run_single_query([{"kinds": [7]}])
+                await reader.__anext__()
             for step, evs in rounds:
                 for e in evs:
                     env.set_clock(T)
@@ -438,7 +446,14 @@ def suite_gc_lifecycle(tier, seed, backends=("sql", "kv")):
                 tick.set()
                 await asyncio.wait_for(idle.wait(), 20)
                 await env.quiesce(st)
-                trace.append({"T": T, "stored": await env.stored_ids(st), "accepted": [[x["id"], x["tags"]] for x in accepted]})
+                dangling = 0
+                if backend == "sql":
+                    d = await env.dump(st)
+                    have = {r[0] for r in d["events"]}
+                    dangling = sum(1 for r in d["tags"] if r[0] not in have)
+                trace.append({"T": T, "stored": await env.stored_ids(st), "accepted": [[x["id"], x["tags"]] for x in accepted], "dangling_tag_rows": dangling})
+            if reader is not None:
+                await reader.aclose()
         finally:
             util.Periodic.wait_function = orig_wait
             util.Periodic.cancel_running()
@@ -479,6 +494,8 @@ def suite_gc_lifecycle(tier, seed, backends=("sql", "kv")):
                 if i > 0 and not rounds[i][1]:
                     prevT = trace[i - 1]["T"]
                     quiet_expiry = quiet_expiry or any(expired(tags, tr["T"]) and not expired(tags, prevT) for _, tags in tr["accepted"])
+                if tr.get("dangling_tag_rows") and bad is None:
+                    bad = ("gc-left-index-rows", i, [], [])
                 if tr["stored"] != want and bad is None:
                     left = sorted(set(tr["stored"]) - set(want))
                     lost = sorted(set(want) - set(tr["stored"]))
@@ -488,8 +505,9 @@ def suite_gc_lifecycle(tier, seed, backends=("sql", "kv")):
             s.count("quiet_expiry" if quiet_expiry else "no_quiet_expiry")
             if bad:
                 cls, i, left, lost = bad
-                s.violate(cls, case, "after pass %d (T=%d) of the running collector: %d expired events still stored, %d unexpired events missing"
-                          % (i, trace[i]["T"], len(left), len(lost)), expected="stored = accepted minus well-formed expirations < T",
+                s.violate(cls, case, "after pass %d (T=%d) of the running collector: %d expired events still stored, %d unexpired events missing, %d tag rows "
+                          "of removed events left" % (i, trace[i]["T"], len(left), len(lost), trace[i].get("dangling_tag_rows", 0)),
+                          expected="stored = accepted minus well-formed expirations < T, no tag row without its event",
                           observed={"still_stored": [x[:8] for x in left], "missing": [x[:8] for x in lost]})
     return s
 
@@ -1536,6 +1554,110 @@ def suite_config_reload(tier, seed):
     return s
 
 
+# ------------------------------------------------------------------------------------ C05 / C19: publishing while other connections come and go
+def suite_publish_during_churn(tier, seed, backends=("sql",)):
+    s = Suite("oracle:publishing-while-connections-churn")
+    s.rule = ("a publisher sends N=150 (quick) / 600 events through web.start_client, waiting for each OK, while three other tasks keep opening "
+              "connections, subscribing (first REQ of a fresh connection) and disconnecting as fast as the event loop lets them, and one subscriber "
+              "stays; every EVENT must be answered OK true, the staying subscriber must receive every event exactly once and in order, no handler may "
+              "let an exception escape, and no registration may be left at the end; non-trivial = at least 20 connections came and went meanwhile")
+    rng = rng_for(seed, "churnpub")
+
+    async def one(backend, N):
+        import falcon
+        from nostr_relay import web
+        from . import relay
+        env.load_config(subscription_limit=5)
+        env.patch_clock()
+        env.patch_web_sleep()
+        sc = env.Scratch()
+        st = await (env.sql_storage(sc) if backend == "sql" else env.kv_storage(sc))
+        escaped = []
+
+        class C:
+            def __init__(self, addr):
+                self.inbox, self.sent, self.addr = asyncio.Queue(), [], addr
+                self.task = asyncio.create_task(self.run())
+
+            async def run(self):
+                try:
+                    await web.start_client(st, self.send, self.recv, self.close, logging.getLogger("verif.churnpub"), rate_limiter=relay.NullLimiter(),
+                                           remote_addr=self.addr)
+                except BaseException as e:      # noqa
+                    escaped.append(repr(e))
+
+            async def send(self, text):
+                self.sent.append(text)
+
+            async def recv(self):
+                item = await self.inbox.get()
+                if item is None:
+                    raise falcon.WebSocketDisconnected()
+                return item
+
+            async def close(self, code=1000):
+                self.sent.append('["CLOSED", %d]' % code)
+        try:
+            H, P = C("10.4.0.1"), C("10.4.0.2")
+            H.inbox.put_nowait(json.dumps(["REQ", "all", {"kinds": [1]}]))
+            for _ in range(2000):
+                await asyncio.sleep(0.005)
+                if any(x.startswith('["EOSE"') for x in H.sent):
+                    break
+            stop = [False]
+            churned = [0]
+
+            async def churner(k):
+                while not stop[0]:
+                    c = C("10.4.1.%d" % k)
+                    c.inbox.put_nowait(json.dumps(["REQ", "x", {"kinds": [1], "limit": 0}]))
+                    await asyncio.sleep(0)
+                    if rng.random() < 0.5:
+                        await asyncio.sleep(0)
+                    c.inbox.put_nowait(None)
+                    await asyncio.wait([c.task], timeout=10)
+                    churned[0] += 1
+            churners = [asyncio.create_task(churner(k)) for k in range(3)]
+            evs = [env.mk_event(i % 3, 1, env.NOW - 5000 + i, [], "cp%d" % i) for i in range(N)]
+            oks = []
+            for e in evs:
+                n0 = len(P.sent)
+                P.inbox.put_nowait(json.dumps(["EVENT", e]))
+                deadline = asyncio.get_running_loop().time() + 30
+                while len(P.sent) == n0 and asyncio.get_running_loop().time() < deadline and not P.task.done():
+                    await asyncio.sleep(0)
+                oks.append(json.loads(P.sent[n0]) if len(P.sent) > n0 else None)
+            stop[0] = True
+            await asyncio.wait(churners, timeout=20)
+            for _ in range(600):
+                await asyncio.sleep(0.005)
+                if sum(1 for x in H.sent if x.startswith('["EVENT"')) >= N:
+                    break
+            await asyncio.sleep(0.05)
+            got = [json.loads(x)[2]["id"] for x in H.sent if x.startswith('["EVENT"')]
+            for c in (H, P):
+                c.inbox.put_nowait(None)
+            await asyncio.wait([H.task, P.task], timeout=10)
+            left = sum(len(v) for v in st.clients.values())
+            bad_ok = [o for o in oks if not (o and o[0] == "OK" and o[2] is True)]
+            return {"ok_true": len(oks) - len(bad_ok), "first_bad_ok": bad_ok[:1], "received": len(got), "in_order_once": got == [e["id"] for e in evs],
+                    "escaped": escaped[:2], "registrations_left": left}, churned[0]
+        finally:
+            await env.close(st)
+            sc.close()
+    for backend in backends:
+        N = 150 if tier == "quick" else 600
+        obs, churned = env.run(one(backend, N))
+        case = {"backend": backend, "events": N, "connections_churned": churned}
+        s.case(case, nontrivial=churned >= 20)
+        s.count("churned_%d+" % (churned // 50 * 50))
+        want = {"ok_true": N, "first_bad_ok": [], "received": N, "in_order_once": True, "escaped": [], "registrations_left": 0}
+        if obs != want:
+            cls = "handler-exception-escaped" if obs["escaped"] else ("publisher-disturbed-by-other-connections" if obs["ok_true"] != N else "subscriber-disturbed-by-other-connections")
+            s.violate(cls, case, "while other connections came and went: %r" % {k: v for k, v in obs.items() if v != want[k]}, expected=want, observed=obs)
+    return s
+
+
 # ------------------------------------------------------------------------------------ C12
 CAP_SCRIPT = r'''
 import sys, json, asyncio, logging
@@ -2260,6 +2382,7 @@ def registry():
         "oracle:many-older-versions-superseded": suite_many_versions,
         "oracle:connections-with-equal-id-strings-stay-apart": suite_colliding_client_ids,
         "oracle:config-derived-values-follow-reload": suite_config_reload,
+        "oracle:publishing-while-connections-churn": suite_publish_during_churn,
         "oracle:limit-cap-plain-subscribe": suite_cap_plain_subscribe,
         "oracle:announce-every-accepted-event": suite_announce_all_accepted,
         "oracle:removed-unreachable-after-read": suite_removed_unreachable_after_read,
